@@ -21,9 +21,12 @@ LANGS = [('typescript', 'ts', [], {}), ('kotlin', 'kt', ['--java-package', 'p'],
 IMPORT_LANGS = ('typescript', 'kotlin')
 CRATE_DIRS = ['alpha', 'beta-core', 'gamma_util', 'op-proxy2', 'x9', 'data-model', 'net_io', 'a1-b2_c3', 'delta', 'my-crate', 'core2', 'zeta_9-x', 'k-8s', 'u_i',
               'two-dash-crate', 'x-y-z', 'q--r']
-SUBDIRS = [[], [], ['m1'], ['m1', 'm2'], ['deep', 'er', 'est'], ['api'], ['model', 'v1'], ['a', 'b', 'c']]
+# module directories below src; the last ones are named like crates the import collector ignores when they are the BASE of a path
+# (std, serde, time, http, regex, ...) or do not start with a lowercase letter: as inner path segments they must make no difference
+SUBDIRS = [[], [], ['m1'], ['m1', 'm2'], ['deep', 'er', 'est'], ['api'], ['model', 'v1'], ['a', 'b', 'c'],
+           ['time'], ['http', 'v2'], ['m1', 'regex'], ['serde'], ['std', 'x'], ['_gen'], ['Models'], ['tokio', 'time']]
 GROUPS = [[], [], [], ['libs'], ['crates', 'shared']]
-FILE_STEMS = ['lib', 'mod', 'types', 'x', 'model', 'dto', 'y2']
+FILE_STEMS = ['lib', 'mod', 'types', 'x', 'model', 'dto', 'y2', 'time', 'zip', 'anyhow']
 NAME_POOL = progs.TYPE_IDENTS + [n + s for s in ('Dto', 'Info', 'Spec', 'Rec') for n in progs.TYPE_IDENTS]
 ORDERS = [(0, 0, 0), (1, 1, 1), (0, 0, 1), (2, 2, 0), (3, 3, 0), (2, 2, 1), (3, 3, 1)]
 
